@@ -1,7 +1,329 @@
-//! C09: not implemented yet.
-use crate::util::Args;
+//! C09: writing a system as btor2 and reading it back preserves it.
+//! One case per line:
+//!   (case ID (profile P) (origin "..") (vseed N) (sys0 (nodes ..) (sys ..)) (ser1 ok|(err "msg")|(panic "loc"))
+//!         (sys1 R) (names1 N) (ser2 ..) (names2 N|none) (fix same|differs|na))
+//!   R = (ok (nodes ..) (sys ..)) | (err) | (panic "loc" "msg") | none;   N = ((inputs "a" ..) (states ..) (outputs ..))
+//! sys0 is the system handed to the real writer, sys1 what the real reader returns for the written text,
+//! names2 the names after a second write/read cycle, fix whether the second text equals the third.
+use crate::c08::btorgen::*;
+use crate::dump::quote;
+use crate::rng::Rng;
+use crate::sexp::{Sexp, read_cases};
+use crate::sysgen::*;
+use crate::util::*;
+use patronus::expr::*;
+use patronus::system::*;
+use std::io::Write;
 
-pub fn run(_args: &Args) {
-    eprintln!("C09: harness module not implemented yet");
-    std::process::exit(2);
+enum Ser {
+    Ok(String),
+    Err(String),
+    Panic(String),
+}
+
+fn ser(ctx: &Context, sys: &TransitionSystem) -> Ser {
+    let r = guarded(|| {
+        let mut buf: Vec<u8> = vec![];
+        patronus::btor2::serialize(ctx, &mut buf, sys).map(|_| String::from_utf8(buf).expect("utf8"))
+    });
+    match r {
+        Ok(Ok(t)) => Ser::Ok(t),
+        Ok(Err(e)) => Ser::Err(format!("{e}")),
+        Err(_) => Ser::Panic(last_panic_loc()),
+    }
+}
+
+fn ser_field(s: &Ser) -> String {
+    match s {
+        Ser::Ok(_) => "ok".to_string(),
+        Ser::Err(m) => format!("(err {})", quote(m)),
+        Ser::Panic(l) => format!("(panic {})", quote(l)),
+    }
+}
+
+fn names_field(ctx: &Context, sys: &TransitionSystem) -> String {
+    let n = |e: ExprRef| quote(ctx.get_symbol_name(e).unwrap_or("?"));
+    format!(
+        "((inputs {}) (states {}) (outputs {}))",
+        sys.inputs.iter().map(|i| n(*i)).collect::<Vec<_>>().join(" "),
+        sys.states.iter().map(|s| n(s.symbol)).collect::<Vec<_>>().join(" "),
+        sys.outputs.iter().map(|o| quote(&ctx[o.name])).collect::<Vec<_>>().join(" ")
+    )
+}
+
+/// everything after the system has been built: write, read, write, read, write
+fn run_case(id: &str, origin: &str, vseed: u64, ctx: &mut Context, sys0: &TransitionSystem, stats: &mut Stats) -> String {
+    let prof = profile_name();
+    let d0 = dump_sys_dag(ctx, sys0);
+    stats.bump("sys0_nodes", &crate::c18::bucket(d0.n_nodes as u64));
+    let s1 = ser(ctx, sys0);
+    let mut line = format!("(case {id} (profile {prof}) (origin {}) (vseed {vseed}) (sys0 {} {}) (ser1 {})", quote(origin), d0.text, d0.signames, ser_field(&s1));
+    match &s1 {
+        Ser::Ok(text1) => {
+            stats.bump("ser1", "ok");
+            // read back into the same context
+            let r1 = guarded(|| patronus::btor2::parse_str(ctx, text1, Some("t")));
+            match r1 {
+                Ok(Some(sys1)) => {
+                    line.push_str(&format!(" (sys1 (ok {})) (names1 {})", dump_sys_dag(ctx, &sys1).text, names_field(ctx, &sys1)));
+                    let s2 = ser(ctx, &sys1);
+                    line.push_str(&format!(" (ser2 {})", ser_field(&s2)));
+                    if let Ser::Ok(text2) = &s2 {
+                        let r2 = guarded(|| patronus::btor2::parse_str(ctx, text2, Some("t")));
+                        if let Ok(Some(sys2)) = r2 {
+                            line.push_str(&format!(" (names2 {})", names_field(ctx, &sys2)));
+                            let fix = match ser(ctx, &sys2) {
+                                Ser::Ok(text3) => {
+                                    if &text3 == text2 {
+                                        "same"
+                                    } else {
+                                        "differs"
+                                    }
+                                }
+                                _ => "na",
+                            };
+                            line.push_str(&format!(" (fix {fix})"));
+                            stats.bump("text_fixpoint", fix);
+                        } else {
+                            line.push_str(" (names2 none) (fix na)");
+                        }
+                    } else {
+                        line.push_str(" (names2 none) (fix na)");
+                    }
+                }
+                Ok(None) => line.push_str(" (sys1 (err)) (names1 none) (ser2 none) (names2 none) (fix na)"),
+                Err(m) => line.push_str(&format!(" (sys1 (panic {} {})) (names1 none) (ser2 none) (names2 none) (fix na)", quote(&last_panic_loc()), quote(&m.chars().take(100).collect::<String>()))),
+            }
+            line.push_str(&format!(" (text1 {})", quote(text1)));
+        }
+        Ser::Err(_) => {
+            stats.bump("ser1", "err");
+            line.push_str(" (sys1 none) (names1 none) (ser2 none) (names2 none) (fix na)");
+        }
+        Ser::Panic(_) => {
+            stats.bump("ser1", "panic");
+            line.push_str(" (sys1 none) (names1 none) (ser2 none) (names2 none) (fix na)");
+        }
+    }
+    line.push(')');
+    line
+}
+
+/// names on intermediate expressions, labels that alias states, anonymous signals
+fn decorate(ctx: &mut Context, rng: &mut Rng, sys: &mut TransitionSystem, stats: &mut Stats) {
+    // an output / bad that refers to a state or input symbol directly, under the same or another name
+    if rng.chance(1, 2) && !sys.states.is_empty() {
+        let st = sys.states[rng.below(sys.states.len() as u64) as usize].symbol;
+        let own = ctx.get_symbol_name(st).unwrap().to_string();
+        let name = match rng.below(3) {
+            0 => own,
+            1 => "alias".to_string(),
+            _ => "_output".to_string(),
+        };
+        sys.add_output(ctx, name.into(), st);
+        stats.inc("decor_output_aliases_state");
+    }
+    if rng.chance(1, 4) {
+        if let Some(st) = sys.states.iter().map(|s| s.symbol).find(|s| s.get_bv_type(ctx) == Some(1)) {
+            sys.bad_states.push(st);
+            stats.inc("decor_bad_is_state");
+        }
+    }
+    // debug names on a few root expressions (named signals)
+    let roots: Vec<ExprRef> = sys.outputs.iter().map(|o| o.expr).chain(sys.bad_states.iter().copied()).chain(sys.states.iter().filter_map(|s| s.next)).collect();
+    for (k, e) in roots.iter().enumerate() {
+        if rng.chance(1, 3) && !ctx[*e].is_symbol() {
+            let nm = match rng.below(4) {
+                0 => format!("sig{k}"),
+                1 => "o0".to_string(),
+                2 => format!("$flat${k}"),
+                _ => "dup".to_string(),
+            };
+            let r = ctx.string(nm.into());
+            sys.names[*e] = Some(r);
+            stats.inc("decor_named_signal");
+        }
+    }
+    // an output with an array expression / a constant-array init somewhere else than at the top
+    if rng.chance(1, 25) {
+        if let Some(arr) = sys.states.iter().map(|s| s.symbol).find(|s| s.get_type(ctx).is_array()) {
+            let t = arr.get_array_type(ctx).unwrap();
+            let z = ctx.zero(t.data_width);
+            let c = ctx.array_const(z, t.index_width);
+            let e = ctx.equal(arr, c);
+            sys.bad_states.push(e);
+            stats.inc("decor_array_constant_inside");
+        }
+    }
+}
+
+pub fn run(args: &Args) {
+    silence_stderr();
+    let mut rng = Rng::new(args.seed);
+    let mut out = std::io::BufWriter::new(std::fs::File::create(&args.out).expect("out file"));
+    let mut stats = Stats::default();
+    let mut distinct = std::collections::HashSet::new();
+    if let Some(path) = args.get("cases-in") {
+        for c in read_cases(path).iter() {
+            let id = c.list()[1].atom().to_string();
+            let origin = c.field("origin").map(|f| f[0].atom().to_string()).unwrap_or_default();
+            let vseed = c.field("vseed").map(|f| f[0].num()).unwrap_or(1);
+            let mut ctx = Context::default();
+            // replay: rebuild sys0 from its DAG dump
+            let f = c.field("sys0").expect("sys0");
+            let sys0 = build_sys_from_dag(&mut ctx, f);
+            let line = run_case(&id, &origin, vseed, &mut ctx, &sys0, &mut stats);
+            distinct.insert(line.clone());
+            writeln!(out, "{line}").unwrap();
+        }
+    }
+    let files = shipped_files();
+    if args.get("files") == Some("all") {
+        for (k, (name, text)) in files.iter().enumerate() {
+            let mut ctx = Context::default();
+            let r = guarded(|| patronus::btor2::parse_str(&mut ctx, text, Some("t")));
+            if let Ok(Some(sys0)) = r {
+                let line = run_case(&format!("f{k}"), &format!("file:{name}"), 7 + k as u64, &mut ctx, &sys0, &mut stats);
+                stats.bump("origin", "file");
+                distinct.insert(text.clone());
+                writeln!(out, "{line}").unwrap();
+            } else {
+                stats.inc("file_not_parsed");
+            }
+        }
+    }
+    for id in 0..args.count {
+        let mut r = rng.fork();
+        let mut ctx = Context::default();
+        let kind = r.below(100);
+        let vseed = r.next_u64() % 1000000;
+        let (sys0, origin): (TransitionSystem, String) = if kind < 50 {
+            let mut cfg = SysCfg::default();
+            cfg.widths = match r.below(3) {
+                0 => vec![1, 1, 2, 3, 4],
+                1 => vec![1, 2, 8, 16, 31, 32, 33],
+                _ => vec![1, 7, 63, 64, 65, 127, 128, 129],
+            };
+            cfg.div_rem = r.chance(1, 3);
+            cfg.arrays_in_exprs = r.chance(2, 5);
+            cfg.max_bv_states = 4;
+            cfg.max_outputs = 3;
+            let mut s = gen_sys(&mut ctx, &mut r, &cfg);
+            decorate(&mut ctx, &mut r, &mut s, &mut stats);
+            (s, "gen_sys".to_string())
+        } else {
+            // a parsed system: grammar-generated text (anonymous and named signals, $-names, duplicate names)
+            let mut bcfg = BtorGenCfg::default();
+            bcfg.safe_init = true;
+            bcfg.shuffle = false;
+            let mut g = BtorGen::new(&mut r, bcfg);
+            g.gen_file();
+            let text = g.lines.join("\n");
+            let p = guarded(|| patronus::btor2::parse_str(&mut ctx, &text, Some("t")));
+            match p {
+                Ok(Some(s)) => (s, "parsed-generated".to_string()),
+                _ => {
+                    stats.inc("generated_text_not_parsed");
+                    continue;
+                }
+            }
+        };
+        stats.bump("origin", &origin);
+        stats.bump("n_states", &format!("{}", sys0.states.len()));
+        if sys0.states.iter().any(|s| s.init.is_none() && s.next.is_none()) {
+            stats.inc("has_plain_state");
+        }
+        let line = run_case(&format!("{id}"), &origin, vseed, &mut ctx, &sys0, &mut stats);
+        let key = line[line.find("(sys0").unwrap_or(0)..].to_string();
+        distinct.insert(key);
+        stats.sample(&line, 2);
+        writeln!(out, "{line}").unwrap();
+    }
+    stats.add("distinct_cases", distinct.len() as u64);
+    stats.write(&args.out);
+}
+
+/// rebuild a system from the DAG dump `(nodes ..) (sys ..)` (replay)
+fn build_sys_from_dag(ctx: &mut Context, f: &[Sexp]) -> TransitionSystem {
+    let nodes = f[0].list();
+    assert_eq!(nodes[0].atom(), "nodes");
+    let mut refs: Vec<ExprRef> = vec![];
+    for n in nodes[1..].iter() {
+        let l = n.list();
+        let tag = l[0].atom();
+        let w = |i: usize| l[i].num() as WidthInt;
+        let c = |i: usize| refs[l[i].num() as usize];
+        let e = match tag {
+            "sym" => ctx.bv_symbol(l[1].atom(), w(2)),
+            "asym" => ctx.array_symbol(l[1].atom(), w(2), w(3)),
+            "lit" => {
+                let v = l[2].bits();
+                ctx.bv_lit(&v)
+            }
+            "zext" => ctx.zero_extend(c(1), w(2)),
+            "sext" => ctx.sign_extend(c(1), w(2)),
+            "slice" => ctx.slice(c(1), w(2), w(3)),
+            "not" => ctx.not(c(1)),
+            "neg" => ctx.negate(c(1)),
+            "aconst" => ctx.array_const(c(1), w(2)),
+            "eq" | "aeq" => ctx.equal(c(1), c(2)),
+            "implies" => ctx.implies(c(1), c(2)),
+            "ugt" => ctx.greater(c(1), c(2)),
+            "sgt" => ctx.greater_signed(c(1), c(2)),
+            "uge" => ctx.greater_or_equal(c(1), c(2)),
+            "sge" => ctx.greater_or_equal_signed(c(1), c(2)),
+            "concat" => ctx.concat(c(1), c(2)),
+            "and" => ctx.and(c(1), c(2)),
+            "or" => ctx.or(c(1), c(2)),
+            "xor" => ctx.xor(c(1), c(2)),
+            "shl" => ctx.shift_left(c(1), c(2)),
+            "ashr" => ctx.arithmetic_shift_right(c(1), c(2)),
+            "lshr" => ctx.shift_right(c(1), c(2)),
+            "add" => ctx.add(c(1), c(2)),
+            "mul" => ctx.mul(c(1), c(2)),
+            "sdiv" => ctx.signed_div(c(1), c(2)),
+            "udiv" => ctx.div(c(1), c(2)),
+            "smod" => ctx.signed_mod(c(1), c(2)),
+            "srem" => ctx.signed_remainder(c(1), c(2)),
+            "urem" => ctx.remainder(c(1), c(2)),
+            "sub" => ctx.sub(c(1), c(2)),
+            "read" => ctx.array_read(c(1), c(2)),
+            "ite" | "aite" => ctx.ite(c(1), c(2), c(3)),
+            "store" => ctx.array_store(c(1), c(2), c(3)),
+            other => panic!("unknown node tag {other}"),
+        };
+        refs.push(e);
+    }
+    let sx = &f[1];
+    let g = |x: &Sexp| refs[x.num() as usize];
+    let mut sys = TransitionSystem::new("replay".to_string());
+    for i in sx.field("inputs").unwrap_or(&[]) {
+        sys.add_input(ctx, g(i));
+    }
+    for st in sx.field("states").unwrap_or(&[]) {
+        let symbol = g(&st.list()[1]);
+        let init = st.field("init").map(|f| g(&f[0]));
+        let next = st.field("next").map(|f| g(&f[0]));
+        sys.add_state(ctx, State { symbol, init, next });
+    }
+    for o in sx.field("outputs").unwrap_or(&[]) {
+        let l = o.list();
+        sys.add_output(ctx, l[0].atom().to_string().into(), g(&l[1]));
+    }
+    for b in sx.field("bads").unwrap_or(&[]) {
+        sys.bad_states.push(g(b));
+    }
+    for c in sx.field("constraints").unwrap_or(&[]) {
+        sys.constraints.push(g(c));
+    }
+    // debug names of intermediate nodes
+    if let Some(sn) = f.get(2) {
+        for it in sn.list().iter().skip(1) {
+            let l = it.list();
+            let e = refs[l[0].num() as usize];
+            let r = ctx.string(l[1].atom().to_string().into());
+            sys.names[e] = Some(r);
+        }
+    }
+    sys
 }
